@@ -9,31 +9,35 @@ RealZ(x) == <<x, FZero>>
 \* expected value as <<value, scale>> from a list of signed terms
 Terms(ts) == <<FSum(ts), FSumAbs(ts)>>
 \* every kernel value carries the absolute error of ln at a 20-bit argument (2^-19), hence + Len(r.kern) in the scale
-ValueOK(r, ts) == IsFlt(r.lp) /\ Close(r.lp, Terms(ts)[1], FAdd(FAdd(Terms(ts)[2], FAbs(r.lp)), FInt(Len(r.kern) * r.D)), 4 * DS)
+ValueOK(r, ts) == IsFlt(r.lp) /\ Close(r.lp, Terms(ts)[1], FAdd(FAdd(Terms(ts)[2], FAbs(r.lp)), FInt(Len(r.kern))), 64)
 Half == <<P19, -20>>
 DF(r) == FInt(r.D)
 
 GaussFull(r) ==
   LET D == r.D
-      d == [a \in 1..D |-> ZSub(r.y[a], r.mean[a])]
+      \* y - mean is supplied in double precision (r.d) because a 20-bit subtraction of large, nearly equal numbers
+      \* is meaningless; it must agree with the Flt difference, and it is what the triangular solve is checked against
+      d == r.d
       quad == Norm2(r.v)
-  IN << <<"cholesky", CholOK(r.L, r.cov)>>,
+  IN << <<"difference", \A a \in 1..D : ZClose(r.d[a], ZSub(r.y[a], r.mean[a]), FAdd(ZL1(r.y[a]), ZL1(r.mean[a])), 16)>>,
+        <<"cholesky", CholOK(r.L, r.cov)>>,
         <<"solve", SolveOK(r.L, r.v, d)>>,
         <<"kernel_args", \A a \in 1..D : KernOK(Kern(r, "ln", a), r.L[a][a][1], FZero)>>,
         <<"value", ValueOK(r, <<FNeg(FMul(FMul(Half, DF(r)), r.ln2pi))>>
                                \o [a \in 1..D |-> FNeg(Kern(r, "ln", a).val)]
                                \o <<FNeg(FMul(Half, quad))>>)>> >>
+DiffOK(r) == \A a \in 1..r.D : ZClose(r.d[a], ZSub(r.y[a], r.mean[a]), FAdd(ZL1(r.y[a]), ZL1(r.mean[a])), 16)
 GaussDiag(r) ==
   LET D == r.D
-      d == [a \in 1..D |-> FSub(r.y[a][1], r.mean[a][1])]
-  IN << <<"kernel_args", \A a \in 1..D : KernOK(Kern(r, "ln", a), r.var[a], FZero)>>,
+      d == [a \in 1..D |-> r.d[a][1]]
+  IN << <<"difference", DiffOK(r)>>, <<"kernel_args", \A a \in 1..D : KernOK(Kern(r, "ln", a), r.var[a], FZero)>>,
         <<"value", ValueOK(r, <<FNeg(FMul(FMul(Half, DF(r)), r.ln2pi))>>
                                \o [a \in 1..D |-> FNeg(FMul(Half, Kern(r, "ln", a).val))]
                                \o [a \in 1..D |-> FNeg(FMul(Half, FDiv(FSq(d[a]), r.var[a])))])>> >>
 GaussSph(r) ==
   LET D == r.D
-      d == [a \in 1..D |-> FSub(r.y[a][1], r.mean[a][1])]
-  IN << <<"kernel_args", KernOK(Kern(r, "ln", 1), r.var[1], FZero)>>,
+      d == [a \in 1..D |-> r.d[a][1]]
+  IN << <<"difference", DiffOK(r)>>, <<"kernel_args", KernOK(Kern(r, "ln", 1), r.var[1], FZero)>>,
         <<"value", ValueOK(r, <<FNeg(FMul(FMul(Half, DF(r)), r.ln2pi)), FNeg(FMul(FMul(Half, DF(r)), Kern(r, "ln", 1).val))>>
                                \o [a \in 1..D |-> FNeg(FMul(Half, FDiv(FSq(d[a]), r.var[1])))])>> >>
 CGauss(r) ==
